@@ -1873,6 +1873,8 @@ func (s *ImmuStore) performPrecommit(tx *Tx, entries []*EntrySpec, ts int64, blT
 	tx.header.Ts = ts
 
 	tx.header.BlTxID = blTxID
+	// tx comes from a pool and keeps the root of its previous use
+	tx.header.BlRoot = [sha256.Size]byte{}
 
 	if blTxID > 0 {
 		blRoot, err := s.aht.RootAt(blTxID)
